@@ -801,10 +801,6 @@ def run_binary(path, names, timeout=60):
 # ------------------------------------------------------------------------------------------------ the check
 
 def load_findings(chk, prop):
-    if not chk.findings:   # TEMPORARY fallback while the lead has not merged the entries (drop after merging)
-        p = os.path.join(vlib.VERIF, "build", "kf-%s.json" % prop)
-        if os.path.exists(p):
-            chk.findings = json.load(open(p))
     return {f["id"]: f for f in chk.findings if f.get("status") == "known"}
 
 
